@@ -30,6 +30,7 @@ class Environment(object):
 
         self.prepare_thread = None
         self.prepare_lock = Lock()
+        self.call_lock = Lock()
 
     def _run(self):
         from subprocess import Popen
@@ -96,8 +97,11 @@ class Environment(object):
         except AttributeError:
             self.run()
 
-        self.conn.send_bytes(dumps((name, args, kwargs)))
-        result, is_ok = loads(self.conn.recv_bytes())
+        # one request at a time: a reply is not addressed, the callers of
+        # several threads would read each other's (or halves of them)
+        with self.call_lock:
+            self.conn.send_bytes(dumps((name, args, kwargs)))
+            result, is_ok = loads(self.conn.recv_bytes())
 
         if is_ok:
             return result
